@@ -197,6 +197,10 @@ def make_store(file_inputs, layout=None):
     return hinputs.InputStore(cp)
 
 
+class NonTermination(Exception):
+    pass
+
+
 class Result(object):
     """everything observable about one solve"""
     __slots__ = ('verdict', 'exc', 'solution', 'unimpl', 'need_inputs', 'blocked', 'prompts',
@@ -241,7 +245,14 @@ def run_solve(form_list, requested, file_inputs, answer=None, schedule=None, ins
     r = Result()
     r.refused = False
 
+    asked_n = {}
+
     def prompt(missing, needed_by):
+        n = missing.name()
+        asked_n[n] = asked_n.get(n, 0) + 1
+        if asked_n[n] > 4:
+            # the same input keeps being asked although it is answered every time: the solve would never end
+            raise NonTermination(f'{n} asked {asked_n[n]} times although answered each time')
         s = answer(missing, needed_by)
         prompts.append((missing.name(), [f.name() for f in needed_by], s))
         if s is None:
